@@ -17,15 +17,15 @@ import (
 
 func init() {
 	register(&Property{
-		ID:        "C12",
-		Title:     "Boolean connectives group as written: parentheses, precedence, case, spacing",
-		Technique: "static analysis: precedence-climbing well-formedness read from the generated parser's Go source (Precpred level vs recursive-call argument per operator) cross-checked with the rule-transition precedences decoded from the serialized ATN; listener operand-order rule; exhaustive truth tables of And/Or/Not evaluators (DECIDE); letter-fragment rule over the grammar's keyword tokens and case-folding rule for text comparisons in the listener",
-		LevelText: "Decides the standard well-formedness conditions of an operator-precedence parser from the generated code and its ATN (AND level above OR level; the right operand of AND may not absorb a bare OR; Go literals agree with the ATN), that the listener builds left/right in source order with the matching operator and that Group is a stack no-op, the complete truth tables of the typed And/Or/Not nodes, and case-insensitivity of every keyword token and of the listener's text tests. Whitespace/redundant-parenthesis invariance beyond 'Group is a no-op' and agreement between ZitiQl.g4 and the generated lexer are not decided (no ANTLR tool to regenerate).",
-		LevelNote: "Trusted: go/types, x/tools SSA, ANTLR runtime, ATN v4 serialization layout. KNOWN FINDING recorded: AND parses its right operand at precedence 0 (see known_findings.json).",
-		DesignRef: "DESIGN.md C12",
+		ID:          "C12",
+		Title:       "Boolean connectives group as written: parentheses, precedence, case, spacing",
+		Technique:   "static analysis: precedence-climbing well-formedness read from the generated parser's Go source (Precpred level vs recursive-call argument per operator) cross-checked with the rule-transition precedences decoded from the serialized ATN; listener operand-order rule; exhaustive truth tables of And/Or/Not evaluators (DECIDE); letter-fragment rule over the grammar's keyword tokens and case-folding rule for text comparisons in the listener",
+		LevelText:   "Decides the standard well-formedness conditions of an operator-precedence parser from the generated code and its ATN (AND level above OR level; the right operand of AND may not absorb a bare OR; Go literals agree with the ATN), that the listener builds left/right in source order with the matching operator and that Group is a stack no-op, the complete truth tables of the typed And/Or/Not nodes, and case-insensitivity of every keyword token and of the listener's text tests. Whitespace/redundant-parenthesis invariance beyond 'Group is a no-op' and agreement between ZitiQl.g4 and the generated lexer are not decided (no ANTLR tool to regenerate).",
+		LevelNote:   "Trusted: go/types, x/tools SSA, ANTLR runtime, ATN v4 serialization layout. KNOWN FINDING recorded: AND parses its right operand at precedence 0 (see known_findings.json).",
+		DesignRef:   "DESIGN.md C12",
 		Explanation: "Sites: the operator alternatives of (*ZitiQlParser).boolExpr; the RULE/PRECEDENCE edges of the serialized ATN; ExitAndExpr/ExitOrExpr/ExitNotExpr; BooleanLogicExprNode.TypeTransformBool; And/Or/Not EvalBool; every lexer rule of ZitiQl.g4 containing letters; every strings.Contains/ParseBool on token text in the listener.",
-		Trusted:   []string{"go/types", "golang.org/x/tools/go/ssa v0.29.0", "ANTLR v4 runtime and ATN serialization format", "generated lexer"},
-		Rules:     rulesC12,
+		Trusted:     []string{"go/types", "golang.org/x/tools/go/ssa v0.29.0", "ANTLR v4 runtime and ATN serialization format", "generated lexer"},
+		Rules:       rulesC12,
 	})
 }
 
@@ -39,13 +39,13 @@ func rulesC12(c *Ctx) {
 // ---- PREC ------------------------------------------------------------------------------------
 
 type opAlt struct {
-	name     string // AndExpr / OrExpr / NotExpr
-	level    int    // Precpred level (−1 for prefix)
-	arg      int    // argument of the recursive boolExpr call for the right operand
-	state    int    // ATN state set before the recursive call
-	pos      token.Pos
-	haveArg  bool
-	haveLvl  bool
+	name    string // AndExpr / OrExpr / NotExpr
+	level   int    // Precpred level (−1 for prefix)
+	arg     int    // argument of the recursive boolExpr call for the right operand
+	state   int    // ATN state set before the recursive call
+	pos     token.Pos
+	haveArg bool
+	haveLvl bool
 }
 
 func intLit(e ast.Expr) (int, bool) {
@@ -475,6 +475,43 @@ func ruleC12Listener(c *Ctx) {
 		}
 		c.Check(ok, "C12.LISTENER", FnName(tt)+": "+w.op, p.Pos(tt.Pos()), w.op+" becomes "+w.node+"{left: left, right: right}", w.op+" is not typed as "+w.node+" with operands in order")
 	}
+	// typing of NOT: the typed node is NotExprNode wrapping the typed operand — no operator flipping
+	// (null makes ordered comparisons false, so `not (a < b)` is not `a >= b`)
+	nt := p.SSAFunc(p.Method("ast", "UntypedNotExprNode", "TypeTransformBool"))
+	c.Analysed(FnName(nt))
+	notT := p.Named("ast", "NotExprNode")
+	fiN := ComputeFacts(nt)
+	okN, nOK := true, 0
+	for _, r := range returnsOf(nt) {
+		if classifyErr(fiN, r.Block(), r.Results[1], 0) == errNonNil {
+			continue
+		}
+		mi, isMI := r.Results[0].(*ssa.MakeInterface)
+		if !isMI || namedOf(mi.X.Type()) != notT {
+			okN = false
+			continue
+		}
+		wraps := false
+		if alloc, isA := mi.X.(*ssa.Alloc); isA {
+			for _, ref := range *alloc.Referrers() {
+				if fa, isFA := ref.(*ssa.FieldAddr); isFA {
+					for _, r2 := range *fa.Referrers() {
+						if st, isSt := r2.(*ssa.Store); isSt {
+							if f, base := loadedField(assertSource(st.Val)); f != nil && f.Name() == "expr" && base == ssa.Value(nt.Params[0]) {
+								wraps = true
+							}
+						}
+					}
+				}
+			}
+		}
+		if wraps {
+			nOK++
+		} else {
+			okN = false
+		}
+	}
+	c.Check(okN && nOK > 0, "C12.LISTENER", FnName(nt), p.Pos(nt.Pos()), "every successful result is NotExprNode{expr: typed operand}", "`not (P)` is not always typed as the negation node around P (e.g. the operator is flipped instead): with null operands `not (a < b)` differs from `a >= b`")
 	c.Floor("C12.LISTENER", 7)
 }
 
